@@ -55,6 +55,26 @@ SeqIsConcat ==
        /\ PORenderSeq(<<PMsg>> \o Partners, st, "en", Envs[i], "|") = POExpectedSeq(<<PMsg>> \o Partners, st, "en", Envs[i], "|")
        /\ PORenderSeq(Partners \o <<PMsg>>, st, "en", Envs[i], "|") = POExpectedSeq(Partners \o <<PMsg>>, st, "en", Envs[i], "|")
 
+\* (checked once, on one state) a plural PO cannot carry is refused, or else
+\* its identity translation renders what the source renders
+ValidateOrRoundTrip ==
+  (pcase.kind = "extra" /\ pcase.i = 1) =>
+    \A j \in 1..Len(POBadCaseSets) :
+       LET b == POBadBody(j) m == [body |-> b, meaning |-> "", desc |-> "d"] IN
+       POValidateDev(b) =>
+         \A k \in 1..Len(PONsShort) :
+            PORoundTrip(m, "id", "en", POEnv(PONsShort[k])) = PORenderSrc(b, POEnv(PONsShort[k]))
+
+\* (checked once) a locale selects the most specific catalogue on its chain
+ResolveMostSpecific ==
+  (pcase.kind = "extra" /\ pcase.i = 1) =>
+    LET all == {POLoc("zh", "", ""), POLoc("zh", "Hant", ""), POLoc("zh", "Hant", "TW"), POLoc("zh", "", "TW")} IN
+    \A avail \in SUBSET all, req \in all \cup {POLoc("zh", "Hans", "CN")} :
+       LET r == POResolve(avail, req) ch == POChain(req) IN
+       IF req \in avail THEN r = <<req>>
+       ELSE IF \A i \in 1..Len(ch) : ch[i] \notin avail THEN r = <<>>
+       ELSE r = <<ch[CHOOSE i \in 1..Len(ch) : ch[i] \in avail /\ \A k \in 1..(i - 1) : ch[k] \notin avail]>>
+
 \* the two-form identity expectation is the source rendering (POExpected is
 \* consistent with PORenderSrc)
 ExpectedIsSource ==
